@@ -269,7 +269,7 @@ static void case_c09(rng_t *r, ctx_t *c) {
             en += (size_t) snprintf(evs + en, sizeof(evs) - en, "g%d", gc);
         } else {
             /* overlap: starts before the next expected id */
-            int oc = (int) rng_below(r, 7);
+            int oc = (int) rng_below(r, 9);
             int64_t have = pos - first;
             int64_t back;
             switch (oc) {
@@ -277,11 +277,14 @@ static void case_c09(rng_t *r, ctx_t *c) {
                 case 3: back = rng_range(r, 1, spd); break;
                 case 4: back = n + rng_range(r, 0, 5); break;          /* total overlap: nothing new */
                 case 5: back = fillcap + 17; break;                    /* longer than the internal scratch */
+                case 7: case 8: back = rng_range(r, 1, 9); break;      /* the NEW part is longer than one / several scratch pieces */
                 default: back = rng_range(r, 1, have); break;
             }
             if (back > have) back = have;
             if (back < 1) back = 1;
             if (oc == 5) n = back + rng_range(r, 1, spd);
+            if (oc == 7) n = back + fillcap + rng_range(r, -9, spd + 9);
+            if (oc == 8) n = back + 2 * fillcap + rng_range(r, 1, fillcap);
             op_t *o = prog_add(&p, OP_FSR); o->id = 5; o->sid = pos - back; o->n = (uint32_t) n; o->vseed = rng_u64(r);
             if (n > back) pos += n - back;
             if (oc > maxovcls) maxovcls = oc;
@@ -645,9 +648,26 @@ static void case_c13(rng_t *r, ctx_t *c) {
         for (size_t k = 0; k < ldata.n; ++k) if (ldata.ops[k].id == sigdefs[i].id) *ol_add(&per[i], OP_FSR) = ldata.ops[k];
     }
     for (int i = 0; i < nrej; ++i) {
-        int kind = (int) rng_below(r, 6);
+        int kind = (int) rng_below(r, 7);
         op_t *o;
         switch (kind) {
+            case 6: {  /* a signal definition with invalid parameters (FSR without sample rate / unknown data type), then data for that id */
+                struct jls_signal_def_s d; uint16_t sid = (uint16_t) rng_range(r, 1, 255);
+                int used = 0; for (int k = 0; k < sig_n; ++k) if (sig_ids[k] == sid) used = 1;
+                if (used || !src_n) break;
+                gen_def(r, &d, sid, src_ids[0], &DTYPES[13], DEF_MINIMAL);
+                int badtype = rng_chance(r, 1, 2);
+                if (!badtype) d.sample_rate = 0; else d.data_type = 0x00001234;
+                size_t before = p.n;
+                prog_add_signal(&p, &d, "invalid", "", PAT_RANDOM, 1);
+                o = ol_add(&lrej, OP_SIGNAL); *o = p.ops[before]; p.n = before; o->expect_reject = 1;
+                int nd = (int) rng_range(r, 1, badtype ? 2 : 3);   /* no sample data for a type the generator cannot produce */
+                for (int q = 0; q < nd; ++q) {
+                    o = ol_add(&lrej, q == 0 ? OP_ANNO : (q == 1 ? OP_UTC : OP_FSR));
+                    o->id = sid; o->sid = 0; o->n = 10; o->vseed = 1; o->stype = JLS_STORAGE_TYPE_BINARY; o->dsize = 4; o->expect_reject = 1;
+                }
+                break;
+            }
             case 0: if (!src_n) break; o = ol_add(&lrej, OP_SOURCE); *o = defs[0]; for (size_t q = 0; q < ndefs; ++q) if (defs[q].kind == OP_SOURCE) { *o = defs[q]; break; } o->expect_reject = 1; break;
             case 1: if (!nsigdefs) break; o = ol_add(&lrej, OP_SIGNAL); *o = sigdefs[rng_below(r, nsigdefs)]; o->expect_reject = 2; break;   /* duplicate only once its original was issued */
             case 2: {  /* signal naming an undefined source */
